@@ -8,7 +8,8 @@ THEOREMS = [
     "C11_nonce_unique", "C11_tamper_rejected", "C11_conn_stream_roundtrip",
 ]
 MODULE = "LV.Noise.Props"
-TARGETS = ["theories/Noise/Props.vo", "theories/Noise/Exec.vo", "theories/Noise/Examples.vo"]
+TARGETS = ["theories/Noise/Props.vo", "theories/Noise/Exec.vo", "theories/Noise/Examples.vo",
+           "theories/Noise/GenBridge.vo"]
 HARNESS = ["brontide/verif_noise_test.go"]
 WARM = [{"pkg": "brontide", "files": HARNESS}]
 IMPORTS = ("From Coq Require Import List NArith Bool.\nImport ListNotations.\n"
